@@ -18,11 +18,11 @@ CLAIMS = {
 
 CLAIMS['C12'] = (
     'call-site error-discipline analysis: path-sensitive abstract interpretation (sign/class domain) of every '
-    'caller of the I/O-failure closure; -Werror=unused-result compile-fail witness; write-retry continuation rule (result symbols, bounded unrolling); short-count-only-at-EOF contract of the read wrapper by linear path values and Fourier-Motzkin',
+    'caller of the I/O-failure closure; -Werror=unused-result compile-fail witness; write-retry continuation rule (result symbols, bounded unrolling); short-count-only-at-EOF contract of the read wrapper by linear path values and Fourier-Motzkin; bounded-read end-of-file clause (a read whose count is what is left of a known total: end of file must not reach a success exit unless a test shows nothing was left); copy-loop extents shared with C08',
     'static analysis: for each of ~170 call sites whose callee can fail because of read/write/lseek/ftruncate, '
     'follows the failure classes of the callee\'s return convention (and short counts of read()/write()) through '
     'the caller on all CFG paths and shows they cannot reach a success exit; callee-side convention check; '
-    'compile-fail witness for dropped must-check results; C12-e: a retried write passes source + result and count - result. C12-f: read_data() returns fewer bytes than requested only behind a read() == 0 edge. Decides the error-propagation mechanism of C12 in '
+    'compile-fail witness for dropped must-check results; C12-e: a retried write passes source + result and count - result. C12-f: read_data() returns fewer bytes than requested only behind a read() == 0 edge. C12-a (extended): end of file inside a copy of known length is a failure. C12-h: the chunk copy moves exactly the stored size at the chunk's own offsets. Decides the error-propagation mechanism of C12 in '
     'library and tools, not faults inside dependencies, close() results or deferred ENOSPC.',
     'trusted: clang 14 front end; frozen return-convention table (checked against inferred return classes); '
     'external summaries of read/write/lseek/ftruncate; value classes {-1,<-1,0,1,>1}')
